@@ -20,7 +20,8 @@ type Case struct {
 	Place   string      `json:"place"`
 	// ScaleExp k: Clip runs on line and polygon multiplied exactly by 2^k; its result is divided by 2^k again before the
 	// oracle (which works on the unscaled case) looks at it
-	ScaleExp int `json:"scale_exp,omitempty"`
+	ScaleExp  int  `json:"scale_exp,omitempty"`
+	HoleFirst bool `json:"hole_first,omitempty"` // some polygon lists its rings in an order other than shell first
 }
 
 func gen(t *rapid.T) Case {
@@ -29,6 +30,20 @@ func gen(t *rapid.T) Case {
 	R := rapid.SampledFrom([]float64{5, 20}).Draw(t, "R")
 	A := vkit.GenPolygonal(t, kind, 0, 0, R, false)
 	c.P = A.G
+	// ring order is free: a quarter of the polygons list their rings in a drawn order (a hole before its shell, as the
+	// library's own Difference returns them)
+	if c.P.T == "Polygon" && len(c.P.Rings) >= 2 && rapid.IntRange(0, 3).Draw(t, "ringorder") == 2 {
+		c.P.Rings = rapid.Permutation(c.P.Rings).Draw(t, "ringperm")
+		c.HoleFirst = true
+	}
+	if c.P.T == "MultiPolygon" {
+		for i := range c.P.Polys {
+			if len(c.P.Polys[i]) >= 2 && rapid.IntRange(0, 3).Draw(t, "ringorderm") == 2 {
+				c.P.Polys[i] = rapid.Permutation(c.P.Polys[i]).Draw(t, "ringpermm")
+				c.HoleFirst = true
+			}
+		}
+	}
 	c.Place = rapid.SampledFrom([]string{"across", "across", "inside", "throughhole", "outside_near", "outside_far", "xmonotone"}).Draw(t, "place")
 	nl := rapid.SampledFrom([]int{1, 1, 2, 3}).Draw(t, "nl")
 	c.AsMulti = nl > 1 || rapid.Bool().Draw(t, "asmulti")
@@ -162,6 +177,9 @@ func run(c Case) (v vkit.Verdict) {
 	margin := 1e-7 * scale
 	v.Class("place_" + c.Place)
 	v.Class("kind_" + c.P.T)
+	if c.HoleFirst {
+		v.Class("rings_in_drawn_order")
+	}
 	for _, l := range c.Lines {
 		if len(l) > 256 {
 			v.Class("member_longer_than_256")
@@ -275,7 +293,14 @@ func run(c Case) (v vkit.Verdict) {
 		}
 		PS.Polys = append(PS.Polys, q)
 	}
-	P := PS.Geom().(geom.Polygonal)
+	sgP, sameP := vkit.SharedGeom(PS)
+	P := sgP.(geom.Polygonal)
+	defer func() {
+		if m := sameP(); m != "" && !v.Bad {
+			v = v.Fail("the call changed the geometry it was given (point lists are sub-slices of one array with spare capacity): %s", m)
+		}
+	}()
+
 	var L geom.Linear
 	ml := make(geom.MultiLineString, len(c.Lines))
 	for i, l := range c.Lines {
@@ -385,7 +410,7 @@ func TestProp(t *testing.T) {
 	vkit.Main(t, vkit.Spec[Case]{
 		ID: "C14",
 		Rule: "rapid: in 1 case of 3 line and polygon are handed to Clip multiplied exactly by 2^k (the result is divided by 2^k again; the oracle works at unit scale); simple open line strings (self-avoiding walks, hooks, spirals, zig-zags, x-monotone lines; 2-40 vertices, 1 in 30 with 260-700) and multi-line strings of 1-3 members, " +
-			"scaled/placed relative to a valid polygonal P (star polygon or (1 in 3) non-star comb/snake band, 0-3 holes, multi-polygon of 1-3 members, box): across, inside, through a hole, outside near, " +
+			"scaled/placed relative to a valid polygonal P (star polygon or (1 in 3) non-star comb/snake band, 0-3 holes (a quarter with the rings in a drawn order, e.g. a hole first), multi-polygon of 1-3 members, box): across, inside, through a hole, outside near, " +
 			"outside far. Cases where the multi-line is not simple (own O(n^2) test, margin 1e-7*scale) or a line vertex / polygon vertex is within that margin of the other " +
 			"geometry are skipped and counted. Oracle: every line segment is cut at its intersections with every polygon edge and the pieces whose midpoint is inside P " +
 			"(own even-odd test) are summed -> expected length; Clip's total Length must match (1e-9 relative to length+scale), every result vertex must be within 1e-9*scale of " +
